@@ -115,10 +115,19 @@ def accumulator_discipline(rep: Report, f: FuncInfo, var: str, clause: str, ret_
     `+=`.  Assignments that textually precede the last constant initialisation belong to other (earlier
     returning) paths and are not part of this accumulation."""
     from ..loader import walk_own
-    end = getattr(ret_node, 'lineno', 10 ** 9)
+    # program order (depth first, as written), not line numbers: statements read through from a helper keep the line
+    # numbers of the helper
+    pos = {}
+
+    def dfs(node):
+        pos[id(node)] = len(pos)
+        for ch in ast.iter_child_nodes(node):
+            dfs(ch)
+    dfs(f.node)
+    end = pos.get(id(ret_node), 10 ** 9) if ret_node is not None else 10 ** 9
     inits, others, augs = [], [], []
     for n in walk_own(f.node):
-        if getattr(n, 'lineno', 0) > end:
+        if pos.get(id(n), 0) > end:
             continue
         if isinstance(n, ast.Assign):
             for t in n.targets:
@@ -130,15 +139,15 @@ def accumulator_discipline(rep: Report, f: FuncInfo, var: str, clause: str, ret_
                         others.append(n)
         elif isinstance(n, ast.AugAssign) and isinstance(n.target, ast.Name) and n.target.id == var:
             augs.append(n)
-    init = max(inits, key=lambda n: n.lineno) if inits else None
+    init = max(inits, key=lambda n: pos[id(n)]) if inits else None
     check(rep, 'ACC', f.fq, f'accumulator {var} initialised to a constant before the accumulation', init is not None,
           f'`{norm_stmt(init) if init is not None else ""}`',
           f'no top-level constant initialisation of {var} before the accumulation', f.loc(init) if init is not None
           else f.loc(), clause)
-    start = init.lineno if init is not None else 0
+    start = pos[id(init)] if init is not None else 0
     good = []
     for n in others + augs:
-        if n.lineno <= start:
+        if pos.get(id(n), 0) <= start:
             continue
         if isinstance(n, ast.AugAssign) and isinstance(n.op, allow_ops):
             good.append(n)
@@ -173,7 +182,7 @@ def alpha_body(f: FuncInfo, extra_subst=None) -> List[str]:
     order = []
     for n in ast.walk(f.node):
         if isinstance(n, ast.Name) and isinstance(n.ctx, ast.Store) and n.id not in order:
-            order.append((getattr(n, 'lineno', 0), getattr(n, 'col_offset', 0), n.id))
+            order.append((getattr(n, 'order', 0), 0, n.id))
     names = []
     for _, _, nm in sorted(order):
         if nm not in names:
